@@ -280,8 +280,7 @@ Inductive c03_class : Type :=
 | K3_str_default_requoted        (* a str default that starts and ends with a quote mark loses them *)
 | K3_return_vanishes             (* a return entry without prose (and, with docstring types, or without type) is not written *)
 | K3_return_default_not_code     (* a return default that is not a str / whose code is a constant or a name: rewritten from the body *)
-| K3_return_type_dropped         (* a return default under a return type without brackets: the type is deleted *)
-| K3_unmodelled.
+| K3_return_type_dropped.        (* a return default under a return type without brackets: the type is deleted *)
 
 Definition c03_class_name (k : c03_class) : str :=
   match k with
@@ -299,7 +298,6 @@ Definition c03_class_name (k : c03_class) : str :=
   | K3_return_vanishes => L "return-entry-not-written"
   | K3_return_default_not_code => L "return-default-not-code"
   | K3_return_type_dropped => L "return-type-dropped-for-default"
-  | K3_unmodelled => L "unmodelled"
   end.
 
 (* ---- syntactic tests ---- *)
